@@ -30,6 +30,8 @@ CLAIMED = {
          "MIR-driver rules: sink typing by resolved callee type arguments (incl. FnDef constants), ADT data-freeness, dataflow, IR join, template conditions"),
  "C07": ("other", "Compiler-evaluated percent-encode sets shown to contain every byte that is structural or illegal for this repo's decoders (44 bytes with reasons; keys additionally '='), only the escaper writes value bytes (raw parameter positions computed from MIR and shown to receive compile-time constants at every generated call site), typestate (literal|path)* query* build over all 112 generated client methods, decoder pairing incl. split-before-decode order, panic inventory with the build() unwrap recorded as a known finding (TooLong).", "4/C07",
          "MIR-driver rules: evaluated constants, interprocedural who-writes dataflow, typestate on the CFG, panic inventory"),
+ "C08": ("other", "Precedence of explicit / legacy / type-derived safety by dominance; decision tables of combine (16 rows), primitives and type constructors extracted from MIR by path-sensitive constant propagation over finite domains and compared with the meet lattice; named-type rules per definition kind; memo-cell discipline (no provisional constant in a recursive evaluator; stores only inside a repeat-until-stable loop); generated instance equals an independent greatest-fixpoint evaluation of the IR; generator emits `safe` exactly under the decision.", "4/C08",
+         "MIR-driver rules: dominance, decision-table extraction (constant propagation over finite enum domains), memo-cell typestate, IR-joined instance validation"),
 }
 NA = {
  "C11": "Content negotiation quantifies over parsed header lists and numeric q-values; its truth lives in comparator outcomes, not in the shape of the code. The structural clauses in reach are decided under C06/C04; a mirror of this implementation's iterator chain would be a brittle proxy (DESIGN.md section 4/C11).",
@@ -66,7 +68,7 @@ def main():
         "engines": [
             {"name": "mirfacts", "path": "/verif/mirfacts", "serves_properties": sorted(CLAIMED), "kind_free_text": "rustc_private driver (nightly) dumping analysis-phase MIR, impl/ADT tables, evaluated constants as JSON facts, injected via RUSTC_WORKSPACE_WRAPPER under cargo +nightly check"},
             {"name": "rules", "path": "/verif/vf", "serves_properties": sorted(CLAIMED), "kind_free_text": "Python rule library: CFG, dominators, control dependence, copy-chain dataflow, decision tables, typestate; one module per property"},
-            {"name": "tmpl", "path": "/verif/tmpl", "serves_properties": ["C09", "C19"], "kind_free_text": "syn-based quote!-template extractor for conjure-codegen / conjure-macros"},
+            {"name": "tmpl", "path": "/verif/tmpl", "serves_properties": ["C08", "C09", "C19"], "kind_free_text": "syn-based quote!-template extractor for conjure-codegen / conjure-macros"},
         ],
         "checks": checks,
         "not_applicable": na,
